@@ -81,6 +81,8 @@ def run_history(ctx, params, script_kw, prop, class_name):
     am = chain_am(asyncs_all=is_async, with_listener=params.get("listener", True), with_model=params.get("model", False),
                   drop=params.get("drop", ()))
     r, script, model, listeners = build(ctx, am, params, script_kw, class_name)
+    if params.get("base_exception"):
+        script.raise_base_exception = True
     if params.get("where_top_only"):
         script.where = lambda provider, name, info: script._cur_trigger is script._first_trigger
     rtc, allow = params["rtc"], params["allow"]
